@@ -7,7 +7,9 @@ Model of `source/memtrace.c` (the tracing allocator) together with the three ent
   (a `size_t`: every update is reduced mod `2^64` exactly as `fetch_add`/`fetch_sub` do), the hash
   table `allocs` (address ↦ `alloc_info`, abstractly a finite map kept as an association list with
   `put` = replace-or-insert, `erase` = `remove_element`), the table of stack ids, and a logical
-  clock standing for `aws_high_res_clock_get_ticks`.
+  clock standing for `aws_high_res_clock_get_ticks`.  The return value of that read is not modelled:
+  memtrace.c ignores it, and a failed timestamp is no reason to lose the record (the harness makes the
+  read fail on command — op `clock_fail k` — and the accounting must not notice).
 * `Parent`  : the wrapped allocator.  Which address it returns is *not* decided here: every
   operation that obtains memory takes the address as an argument (the op file / the schedule is
   the oracle) and the operation is refused unless the address is fresh (non-NULL, not live) — that
